@@ -14,11 +14,11 @@ from .. import custom, gen, model as M, oracles as O, refmodel as R
 from ..runner import Skip
 
 RULE = ("cases from rng(seed, 16, 0, i): 4 of 5 cases evaluate BaseEdge.calc_jacobians on one custom edge (7 error families x pose types r2/r3/se2/se3, poses with |t| up to 1e3, "
-        "generic rotations, a fifth of them with a bit-exactly zero residual) and on built-in odometry/landmark edges; 1 of 5 optimizes a cluster graph whose custom edges use numerical Jacobians and its AD twin "
+        "generic rotations, a fifth of them with a bit-exactly zero residual; vertices sometimes flagged fixed; a fifth of the custom edges configure their own step 1e-5..1e-8 (the bound then uses that step); sometimes after an unrelated differentiation was aborted by an exception inside its error function) and on built-in odometry/landmark edges; 1 of 5 optimizes a cluster graph whose custom edges use numerical Jacobians and its AD twin "
         "(tol=1e-12, max_iter=50) inside the C05 neighbourhood. distinct = fingerprint of the edge operands / spec; non-trivial = Jacobian with a non-zero rotational block "
         "or twin graphs that moved by > 1e-6.")
 REQ = ["eval:numerical-jacobian-accuracy", "eval:twin-optimum-agrees", "eval:twin-chi2-agrees"] + ["family:" + n for n in custom.TYPES if n not in ("faulty", "robustprior")] + ["family:builtin-odometry", "family:builtin-landmark",
-                                                                                                                          "class:ternary", "class:unary", "kind:se3", "kind:se2", "class:exactly_zero_residual", "class:aliased_pose_objects", "class:evaluated_again_after_edits"]
+                                                                                                                          "class:ternary", "class:unary", "kind:se3", "kind:se2", "class:exactly_zero_residual", "class:aliased_pose_objects", "class:evaluated_again_after_edits", "class:fixed_vertex", "class:edge_configures_its_own_step", "class:earlier_differentiation_aborted_by_edge_fault"]
 PLAN = {
     "quick": {"cases": 2500, "soft_s": 80, "min_nontrivial": 600, "require": REQ},
     "thorough": {"cases": 120000, "soft_s": 1400, "min_nontrivial": 30000, "require": REQ},
@@ -100,6 +100,7 @@ def jacobian_check(ctx, e, fam, case):
         ctx.check("numerical-jacobian-accuracy", False, {"family": fam, "why": "one Jacobian per vertex"}, None, case)
         return
     e0 = np.array(R.vals(f(P)))
+    H = float(getattr(e, "_NUMERICAL_DIFFERENTIATION_EPSILON", 1e-6))
     for i, k in enumerate(ks):
         J = np.asarray(Jnum[i], dtype=float)
         c = R.CD[k]
@@ -197,6 +198,34 @@ def direct_case(ctx, i, rng):
         case["history"] = hist
         case["poses"] = [M.fl(v.pose) for v in e.vertices]
         ctx.count("class:evaluated_again_after_edits")
+    if rng.random() < 0.3:
+        # vertices held fixed by the optimizer still have a derivative: the fixed flag concerns the solver, not the edge
+        flags = [bool(rng.random() < 0.6) for _ in e.vertices]
+        for v, fl_ in zip(e.vertices, flags):
+            v.fixed = fl_
+        case["fixed"] = flags
+        if any(flags):
+            ctx.count("class:fixed_vertex")
+    if not fam.startswith("builtin") and rng.random() < 0.2:
+        # the edge (instance or a subclass of its type) configures its own forward-difference step
+        h = float(rng.choice([1e-5, 1e-7, 3e-8, 1e-8]))
+        if rng.random() < 0.5:
+            e._NUMERICAL_DIFFERENTIATION_EPSILON = h
+        else:
+            e.__class__ = type("Stepped" + type(e).__name__, (type(e),), {"_NUMERICAL_DIFFERENTIATION_EPSILON": h})
+        case["step"] = h
+        ctx.count("class:edge_configures_its_own_step")
+    if rng.random() < 0.15:
+        # history: an earlier numerical differentiation of an unrelated edge was aborted by an exception raised inside its error function
+        kk = str(rng.choice(R.KINDS))
+        fv = M.Vertex(77, M.mkpose(kk, gen.normalize_pose(kk, gen.mild_pose(rng, kk, 3.0))))
+        fe = custom.FaultyPositionPrior([77], np.eye(NT[kk]), np.zeros(NT[kk]), [fv])
+        fe.fail_at = int(rng.integers(2, R.CD[kk] + 2))
+        try:
+            M.BaseEdge.calc_jacobians(fe)
+        except RuntimeError:
+            ctx.count("class:earlier_differentiation_aborted_by_edge_fault")
+        case["earlier_fault"] = {"kind": kk, "fail_at": fe.fail_at}
     jacobian_check(ctx, e, fam, case)
     ctx.count("family:" + fam)
     ctx.count("kind:" + k)
